@@ -46,7 +46,7 @@ def setup() -> None:
 
 
 def budget(tier: str) -> int:
-    return 2400 if tier == "quick" else 100000
+    return 2400 if tier == "quick" else 60000
 
 
 # ---------------------------------------------------------------------------
